@@ -52,7 +52,16 @@
 //   - calls listed under "ignore" (mutex operations, logging, metrics) are
 //     dropped; methods listed under "identity" return their receiver;
 //   - "recv_nonnil" models a pointer receiver as the struct itself (the
-//     assumption that callers never pass nil is stated where it is used).
+//     assumption that callers never pass nil is stated where it is used);
+//   - with the spec-file option "refs": true, values of abstract type are not
+//     dropped but modelled as *identity tokens*: an interface value or a
+//     pointer to an abstract struct / to a non-struct is `Option Int` (nil or a
+//     token), a value of an abstract struct type (time.Time, dns.Question) is
+//     `Int` and `T{}` is the token 0; so nil tests, "which value is passed
+//     on / returned / handed to which call" are part of the translated meaning
+//     (tokens appear in traces via toString); reading a field through such a
+//     value is still an opaque value parameter; `&x` and `*p` are opaque values;
+//     a `var` of a type that stays untranslatable (func values) is skipped.
 //
 // Anything else is a translation error: the generated definition is replaced
 // by a marker that makes the Tie theorem fail, i.e. a broken obligation.
@@ -104,6 +113,8 @@ type TrFunc struct {
 
 type trSpecFile struct {
 	Funcs []TrFunc `json:"funcs"`
+	// Refs models values of abstract type as identity tokens (see header).
+	Refs bool `json:"refs,omitempty"`
 }
 
 type loadedPkg struct {
@@ -214,6 +225,7 @@ type translator struct {
 	funcs   map[string]*funcOut // key: pkgpath + "." + Recv.Name
 	byDecl  map[string]TrFunc
 	out     []*funcOut
+	refs    bool // spec-file option "refs"
 }
 
 type funcOut struct {
@@ -238,7 +250,10 @@ func (t *translator) leanType(ty types.Type) string {
 			return "(Option String)"
 		}
 		if st, ok := u.Underlying().(*types.Struct); ok {
-			return t.structType(u, st)
+			if s := t.structType(u, st); s != "" || !t.refs {
+				return s
+			}
+			return "Int" // refs: value of an abstract struct type = identity token
 		}
 		return t.leanType(u.Underlying())
 	case *types.Alias:
@@ -256,12 +271,13 @@ func (t *translator) leanType(ty types.Type) string {
 	case *types.Pointer:
 		if n, ok := u.Elem().(*types.Named); ok {
 			if st, ok := n.Underlying().(*types.Struct); ok {
-				s := t.structType(n, st)
-				if s == "" {
-					return ""
+				if s := t.structType(n, st); s != "" {
+					return "(Option " + s + ")"
 				}
-				return "(Option " + s + ")"
 			}
+		}
+		if t.refs {
+			return "(Option Int)" // refs: nil or an identity token
 		}
 		return ""
 	case *types.Slice:
@@ -272,6 +288,9 @@ func (t *translator) leanType(ty types.Type) string {
 	case *types.Interface:
 		if u.NumMethods() == 1 && u.Method(0).Name() == "Error" {
 			return "(Option String)"
+		}
+		if t.refs {
+			return "(Option Int)"
 		}
 		return ""
 	case *types.Tuple:
@@ -289,6 +308,26 @@ func (t *translator) leanType(ty types.Type) string {
 		return "(" + strings.Join(parts, " × ") + ")"
 	}
 	return ""
+}
+
+// abstract reports whether, under "refs", ty is modelled as an identity token
+// (abstract struct value, pointer to one, pointer to a non-struct, interface).
+func (t *translator) abstract(ty types.Type) bool {
+	if !t.refs || isError(ty) {
+		return false
+	}
+	switch u := types.Unalias(ty).(type) {
+	case *types.Named:
+		if _, ok := u.Underlying().(*types.Struct); ok {
+			return !structPkgAllowed(u)
+		}
+		return t.abstract(u.Underlying())
+	case *types.Pointer:
+		return !isPtrStruct(u) || t.abstract(u.Elem())
+	case *types.Interface:
+		return t.leanType(u) == "(Option Int)"
+	}
+	return false
 }
 
 func sanitize(s string) string {
@@ -578,6 +617,9 @@ func (c *fctx) expr(e ast.Expr) ex {
 	case *ast.SelectorExpr:
 		return c.selector(x)
 	case *ast.UnaryExpr:
+		if x.Op == token.AND {
+			return c.opaqueValue(e) // address of something: a fresh identity token
+		}
 		a := c.expr(x.X)
 		switch x.Op {
 		case token.NOT:
@@ -602,6 +644,11 @@ func (c *fctx) expr(e ast.Expr) ex {
 			}
 			return c.bindN(xs, func(s []string) string { return "[" + strings.Join(s, ", ") + "]" })
 		}
+		if len(x.Elts) == 0 && c.t.abstract(c.typeOf(x)) && c.t.leanType(c.typeOf(x)) == "Int" {
+			return ex{code: "(0 : Int)"} // zero value of an abstract struct: the token 0
+		}
+	case *ast.StarExpr:
+		return c.opaqueValue(e)
 	}
 	if _, ok := e.(*ast.IndexExpr); ok {
 		return c.opaqueValue(e)
@@ -645,7 +692,7 @@ func (c *fctx) selector(x *ast.SelectorExpr) ex {
 	if sel == nil || sel.Kind() != types.FieldVal {
 		fail("selector %s is not a field", c.show(x))
 	}
-	if bt := c.typeOf(x.X); c.t.leanType(bt) == "" {
+	if bt := c.typeOf(x.X); c.t.leanType(bt) == "" || c.t.abstract(bt) {
 		return c.opaqueValue(x)
 	}
 	if len(sel.Index()) != 1 {
@@ -984,7 +1031,7 @@ func (c *fctx) traceArg(a ast.Expr) (code string) {
 		return code
 	}
 	lt := c.t.leanType(tv.Type)
-	if lt != "Int" && lt != "Bool" && lt != "String" {
+	if lt != "Int" && lt != "Bool" && lt != "String" && !c.t.abstract(tv.Type) {
 		return code
 	}
 	// Do not let a nested opaque call allocate parameters from here.
@@ -1181,6 +1228,9 @@ func (c *fctx) stmts(list []ast.Stmt) string {
 				fail("var with values %s", c.show(x))
 			}
 			for _, n := range vs.Names {
+				if c.t.leanType(c.p.info.Defs[n].Type()) == "" {
+					continue // variable of untranslatable type (func value …): only passed around
+				}
 				z := c.zero(c.p.info.Defs[n].Type())
 				out += fmt.Sprintf("let %s : %s := %s\n", leanIdent(n.Name), c.t.leanType(c.p.info.Defs[n].Type()), z)
 			}
@@ -1629,7 +1679,7 @@ func runTranslator(specDir, outDir, harness, modfile string) error {
 	sort.Strings(props)
 	for _, prop := range props {
 		sf := specs[prop]
-		t := &translator{l: l, structs: map[string]*structDef{}, funcs: map[string]*funcOut{}, byDecl: map[string]TrFunc{}}
+		t := &translator{l: l, structs: map[string]*structDef{}, funcs: map[string]*funcOut{}, byDecl: map[string]TrFunc{}, refs: sf.Refs}
 		for _, f := range sf.Funcs {
 			t.byDecl[repoModule+f.Pkg+"."+f.Func] = f
 		}
